@@ -743,8 +743,9 @@ Lemma compare_types_no_crash : forall fx nm om o n, fx_args fx = true -> compare
 Proof.
   intros fx nm om o. induction o as [x|oname obare oargs IH] using ty_ind'; intros n FX; [discriminate|].
   cbn [compare_types].
+  rewrite FX. cbn [andb].
+  destruct (length (ty_args n) <? length oargs)%nat eqn:L; [rewrite orb_true_r; discriminate|]. rewrite orb_false_r.
   destruct (ref_mismatch nm om (ty_name n) oname || (fx_bare fx && negb (Bool.eqb (ty_bare n) obare))); [discriminate|].
-  rewrite FX. cbn [andb]. destruct (length (ty_args n) <? length oargs)%nat eqn:L; [discriminate|].
   apply Nat.ltb_ge in L. apply compare_args_no_crash; [|exact L].
   rewrite Forall_forall in IH. intros b HB a. apply IH; assumption.
 Qed.
@@ -1102,10 +1103,11 @@ Theorem compare_types_accept_prefix : forall fx nm om o nname nbare nargs,
 Proof.
   intros fx nm om o. induction o as [x|oname obare oargs IH] using ty_ind'; intros nname nbare nargs FB CO CN H; [exact I|].
   cbn [compare_types ty_name ty_bare ty_args] in H.
-  destruct (ref_mismatch nm om nname oname || (fx_bare fx && negb (Bool.eqb nbare obare))) eqn:E; [discriminate|].
+  destruct (ref_mismatch nm om nname oname || (fx_bare fx && negb (Bool.eqb nbare obare))
+            || (fx_args fx && (length nargs <? length oargs)%nat)) eqn:E; [discriminate|].
+  apply orb_false_iff in E. destruct E as [E _].
   apply orb_false_iff in E. destruct E as [E1 E2]. rewrite FB in E2. cbn [andb] in E2. apply negb_false_iff in E2.
   apply Bool.eqb_prop in E2.
-  destruct (fx_args fx && (length nargs <? length oargs)%nat); [discriminate|].
   unfold ref_mismatch in E1. rewrite (CO oname) in E1 by (left; reflexivity).
   rewrite (CN nname) in E1 by (left; reflexivity). apply negb_false_iff, String.eqb_eq in E1.
   cbn [ty_prefix]. split; [symmetry; exact E1|]. split; [symmetry; exact E2|].
